@@ -607,12 +607,15 @@ pub fn full_strategy() -> impl Strategy<Value = FullDevice> {
 }
 
 pub fn check_full(tmp: &Path, c: &FullDevice, obs: &mut Obs) -> CaseResult {
-    let dev = Path::new("/dev/full");
-    if !dev.exists() {
+    if !crate::fsx::full_device_ok() {
         obs.class("no-/dev/full(skipped)");
         return Ok(());
     }
     let dir = scratch(tmp, "c04f");
+    // (through a symbolic link: whatever the appender does to the NAME it was given, the device node stays)
+    let link = dir.join("log-on-a-full-device.log");
+    std::os::unix::fs::symlink("/dev/full", &link).unwrap();
+    let dev = link.as_path();
     let app: Box<dyn Append> = if c.rolling {
         let policy = make_policy(&dir, &TrigSpec::Size(1 << 40), &RollSpec::Delete).unwrap();
         match build_appender(dev, c.append_mode, &None, policy) {
